@@ -97,6 +97,15 @@ def check_query(F, rep, q, kind):
                     msgs.append("the aux record %s is not an item of a VerNeedAuxIterator" % show(vna)[:120])
                 # guard: vna_other == index(v)
                 g = _guard_eq(an, st, F_(vna, "vna_other"), idx)
+                if g is not True and vna[0] == "payload" and vna[1][0] == "call" and vna[1][1] == "iter::find":
+                    # `vna_iter.find(|vna| vna.vna_other == wanted)`: the guard is the search predicate
+                    from .c20 import search_predicate
+                    for x in val.subterms():
+                        if x.op == "call" and x.args[0] == "iter::find" and len(x.args[2]) == 2 and norm(T.payload(x, "Some")) == vna:
+                            pred = search_predicate(F, an, x.args[2][1])
+                            want_p = ("Eq",) + tuple(sorted((F_(("ITEM",), "vna_other"), idx), key=repr))
+                            if pred == want_p:
+                                g = True
                 if g is not True:
                     msgs.append("the record is returned without vna_other == (versym & 0x7fff) being established (guard=%s)" % g)
             if vn is not None and vna is not None:
@@ -152,6 +161,8 @@ def _guard_eq(an, st, a_norm, b_norm):
 def _paired(an, vn, vna, outer_ty):
     """vna = next(AUX)!Some where AUX's loop-entry value is item.1 of the outer iterator item whose .0 is vn"""
     S, _ = item_of(an, vna, "gnu_symver::VerNeedAuxIterator")
+    if S is not None and S[0] == "fld" and S[2] == 1 and vn == ("fld", S[1], 0) and item_of(an, S, outer_ty)[0] is not None:
+        return True      # both halves of the same item of the outer iterator, used directly
     if S is None or S[0] != "phi":
         return False
     # vn is a loop-carried copy of outer item .0 ; find phi terms
